@@ -282,7 +282,7 @@ fn alphabet(durs: &[usize]) -> Vec<Sym> {
 
 pub fn run(tier: Tier) -> i32 {
     let rep = Report::new("C05", tier, "model_checking");
-    rep.set_rule("SCOPE: full product over 1..N states of per-state symbols (mean in 3 values) x (variance in {0.05,1,3}) x (duration in {1,2,3}) x {voiced, unvoiced}, for each of 12 window sets {static; +delta; +delta+delta-delta; width-5; width-3 delta with width-5 delta-delta; width-5 delta with width-3 delta-delta; even lengths 2 and 4; backward difference only; four windows; a zero-padded static window with and without dynamic windows} and vector lengths {1,2}, on the real MlpgAdjust::create (every fourth case with a window set that went through its Serialize/Deserialize round trip; every fifth case followed by a second create() on the same object with other durations); oracle = dense Gaussian elimination of the definition, rel. tolerance 1e-9; plus single instances with voiced runs of 65535..131079 frames (thorough: up to 2^20) whose optimality is tested through the likelihood gradient at every frame (relative size <= 1e-7); distinct = distinct (state sequence, window set, vector length); non-trivial = every case (each is compared frame by frame)");
+    rep.set_rule("SCOPE: full product over 1..N states of per-state symbols (mean in 3 values) x (variance in {0.05,1,3}) x (duration in {1,2,3}) x {voiced, unvoiced}, for each of 16 window sets {static; +delta; +delta+delta-delta; width-5; width-3 delta with width-5 delta-delta; width-5 delta with width-3 delta-delta; even lengths 2 and 4; backward difference only; four windows; a zero-padded static window with and without dynamic windows; static windows with a coefficient other than 1: [2], [0.5] + delta, [-1] + two dynamic windows, [0,2,0] + delta} and vector lengths {1,2}, on the real MlpgAdjust::create (every fourth case with a window set that went through its Serialize/Deserialize round trip; every fifth case followed by a second create() on the same object with other durations); oracle = dense Gaussian elimination of the definition, rel. tolerance 1e-9; plus single instances with voiced runs of 65535..131079 frames (thorough: up to 2^20) whose optimality is tested through the likelihood gradient at every frame (relative size <= 1e-7); distinct = distinct (state sequence, window set, vector length); non-trivial = every case (each is compared frame by frame)");
     rep.assume("variances within [0.05,3]; state counts/durations beyond the stated bound are covered only by the periodic families of the thorough tier");
     let st = Stats { island1: Default::default(), island2: Default::default(), all_unvoiced: Default::default(), ends_unvoiced: Default::default(), short_island_wide: Default::default(), worst: std::sync::Mutex::new(0.0) };
     let full = alphabet(&[1, 2, 3]);
@@ -290,7 +290,7 @@ pub fn run(tier: Tier) -> i32 {
     let mut cases = 0u64;
     for n in 1..=max_states {
         let total = full.len().pow(n as u32);
-        for wset in 0..12 {
+        for wset in 0..crate::gen::voice::WINDOW_SETS {
             for vlen in [1usize, 2] {
                 // vector length 2 doubles the work without new structure beyond the stride: restrict to n <= 3
                 if vlen == 2 && n > 3 {
@@ -325,7 +325,7 @@ pub fn run(tier: Tier) -> i32 {
         }
         let n = max_states + 1;
         let total = red16.len().pow(n as u32);
-        for wset in 0..12 {
+        for wset in 0..crate::gen::voice::WINDOW_SETS {
             cases += total as u64;
             rep.par_for(total, 256, "C05 part 2", |code| {
                 let mut c = code;
@@ -351,7 +351,7 @@ pub fn run(tier: Tier) -> i32 {
         ];
         for n in 5..=6usize {
             let total = red.len().pow(n as u32);
-            for wset in 0..12 {
+            for wset in 0..crate::gen::voice::WINDOW_SETS {
                 for vlen in [1usize, 3, 4] {
                     cases += total as u64;
                     rep.par_for(total, 64, "C05 part 3", |code| {
@@ -379,7 +379,7 @@ pub fn run(tier: Tier) -> i32 {
         }
         for n in 1..=3usize {
             let total = long.len().pow(n as u32);
-            for wset in 0..12 {
+            for wset in 0..crate::gen::voice::WINDOW_SETS {
                 cases += total as u64;
                 rep.par_for(total, 64, "C05 part 4", |code| {
                     let mut c = code;
@@ -409,7 +409,7 @@ pub fn run(tier: Tier) -> i32 {
                 }
             }
         }
-        for wset in 0..12 {
+        for wset in 0..crate::gen::voice::WINDOW_SETS {
             cases += pats.len() as u64;
             rep.par_for(pats.len(), 8, "C05 part 5", |i| {
                 let syms: Vec<Sym> = (0..60).map(|k| pats[i][k % pats[i].len()]).collect();
@@ -420,7 +420,7 @@ pub fn run(tier: Tier) -> i32 {
     cases += long_runs(&rep, tier);
     rep.nontrivial.store(cases, Ordering::Relaxed);
     rep.states.store(cases, Ordering::Relaxed);
-    rep.note("bounds", json!({"max_states_full_product": max_states, "per_state_alphabet": full.len(), "means": MEANS, "variances": VARS, "durations": [1,2,3], "window_sets": 12, "vector_lengths": [1,2],
+    rep.note("bounds", json!({"max_states_full_product": max_states, "per_state_alphabet": full.len(), "means": MEANS, "variances": VARS, "durations": [1,2,3], "window_sets": crate::gen::voice::WINDOW_SETS, "vector_lengths": [1,2],
         "worst_relative_error": *st.worst.lock().unwrap(),
         "islands_len1": st.island1.load(Ordering::Relaxed), "islands_len2": st.island2.load(Ordering::Relaxed), "all_unvoiced": st.all_unvoiced.load(Ordering::Relaxed),
         "unvoiced_both_ends": st.ends_unvoiced.load(Ordering::Relaxed), "width5_with_short_island": st.short_island_wide.load(Ordering::Relaxed)}));
